@@ -126,13 +126,16 @@ type observed struct {
 	Transport string      `json:"transport_error,omitempty"`
 }
 
-var reqCounter atomic.Int64
+var reqCounter, chunkedBodies atomic.Int64
 
 func send(cl *http.Client, a *app.App, pr *app.Probes, w wire) observed {
 	id := fmt.Sprintf("c04-%d", reqCounter.Add(1))
 	var body io.Reader
 	if w.Body != "" {
 		body = bytes.NewReader([]byte(w.Body))
+		if w.Chunked {
+			body = struct{ io.Reader }{body} // length unknown to the client: chunked transfer encoding
+		}
 	}
 	var o observed
 	req, err := http.NewRequest(w.Method, "http://"+a.Addr()+"/", body)
@@ -155,6 +158,9 @@ func send(cl *http.Client, a *app.App, pr *app.Probes, w wire) observed {
 		resp.Body.Close()
 		o.Status = resp.StatusCode
 		o.Sub = resp.Header.Get("X-Sub")
+	}
+	if w.Chunked {
+		chunkedBodies.Add(1)
 	}
 	for _, e := range pr.Take(id) {
 		if e.Stage == "authn" {
@@ -378,6 +384,7 @@ func TestC04(t *testing.T) {
 	r.Set("endpoint_calls", map[string]int64{"jwks": srv.calls.jwks.Load(), "introspection": srv.calls.introspect.Load(), "identity": srv.calls.identity.Load()})
 
 	total := r.Counter("answer_authenticated") + r.Counter("answer_failed")
+	r.Count("requests_with_chunked_body", int(chunkedBodies.Load()))
 	r.Require("type_level_chains", int64(n), 258)
 	r.Require("authenticated_answers", r.Counter("answer_authenticated"), total/10)
 	r.Require("failed_answers", r.Counter("answer_failed"), total/10)
